@@ -604,6 +604,21 @@ func main() {
 	run := ev.New("C13", "exploration")
 	thorough := run.Thorough()
 	cases := enumerate(thorough)
+	if mc := os.Getenv("C13_MAXCASES"); mc != "" {
+		// debugging / mutation-testing aid: only an evenly strided subset of the enumeration
+		var n int
+		fmt.Sscan(mc, &n)
+		if n > 0 && n < len(cases) {
+			var sub []tcase
+			for i := 0; i < n; i++ {
+				sub = append(sub, cases[i*len(cases)/n])
+			}
+			cases = sub
+			if ev.Job() == "" {
+				run.NotExhaustive("C13_MAXCASES set: only " + mc + " cases run")
+			}
+		}
+	}
 
 	if only := os.Getenv("C13_ONLY"); only != "" {
 		// debugging aid: run the cases whose JSON contains the given substring, in-process
